@@ -184,7 +184,12 @@ func (f *Fam) genBegin(r *rand.Rand, s *Snapshot) string {
 		if v, ok := s.Vals[a]; ok && v.Status == 1 && r.Intn(5) != 0 {
 			signed = 0 // a validator that has begun to unstake mostly stops signing: its last votes are misses
 		}
-		vs = append(vs, fmt.Sprintf("%s:%d:%d", a, signers[a], signed))
+		pw := signers[a]
+		if r.Intn(40) == 0 {
+			// the power the consensus engine reports for a vote is whatever it says: far beyond the validator's own
+			pw = pick(r, 9223372036855, 4611686018427387904, 9223372036854775807)
+		}
+		vs = append(vs, fmt.Sprintf("%s:%d:%d", a, pw, signed))
 	}
 	v := "-"
 	if len(vs) > 0 {
@@ -233,7 +238,7 @@ func (f *Fam) genBegin(r *rand.Rand, s *Snapshot) string {
 			pw = q.Int64()
 		}
 		if r.Intn(4) == 0 {
-			pw = pick(r, 0, 1, pw+5, pw/2)
+			pw = pick(r, 0, 1, pw+5, pw/2, 9223372036855, 4611686018427387904)
 		}
 		e = fmt.Sprintf("%s:%d:%d:%d", a, maxi(h-1-int64(r.Intn(3)), 1), now-age, pw)
 		// now and then evidence against two or three validators in one block (they are dealt with in the order given)
@@ -276,11 +281,22 @@ func (f *Fam) genTx(r *rand.Rand, s *Snapshot) string {
 	// replay of an earlier transaction, byte for byte (same entropy, same signature)
 	if len(f.gen.past) > 0 && r.Intn(14) == 0 {
 		old := f.gen.past[r.Intn(len(f.gen.past))]
+		if r.Intn(3) == 0 { // a third of the replays: a transaction of a multisignature account, if there has been one
+			var ms []string
+			for _, p := range f.gen.past {
+				if strings.Contains(p, " signer=1") && strings.Contains(p, "mut=none") {
+					ms = append(ms, p)
+				}
+			}
+			if len(ms) > 0 {
+				old = ms[r.Intn(len(ms))]
+			}
+		}
 		m := []string{"deliver", "deliver", "check", "simulate"}[r.Intn(4)]
 		if m == "simulate" && strings.Contains(old, "mut=msg") {
 			m = "deliver" // a simulation checks no signature: a changed message would simply be another message
 		}
-		if strings.Contains(old, " signer=1") && strings.Contains(old, "mut=none") && m != "simulate" && r.Intn(2) == 0 {
+		if strings.Contains(old, " signer=1") && strings.Contains(old, "mut=none") && m != "simulate" && r.Intn(3) == 0 {
 			// the transaction of a multisignature account again, its component signatures exchanged or the first one
 			// repeated: the very signatures that verified before, now under the wrong components
 			old = strings.Replace(old, "mut=none", []string{"mut=msswap", "mut=msdup"}[r.Intn(2)], 1)
